@@ -56,7 +56,18 @@ def answer(cls, word, topo="C", rec=None, keep=None):
     if keep is not None:
         keep.append(ent)
     try:
-        if not ent.is_valid():
+        first = ent.is_valid()
+        again = ent.is_valid()
+        if first != again:
+            return ["unstable", first, again]       # the same wrapper asked twice
+        if not first:
+            try:
+                ent.overhang_start()
+                return ["invalid-but-overhang-returned"]
+            except Exception:  # noqa
+                pass
+            if ent.is_valid():
+                return ["unstable", False, True]
             return ["invalid"]
     except Exception as e:  # noqa
         return ["exc", type(e).__name__]
@@ -73,6 +84,8 @@ def resolve(classes, ref):
         base = classes[ref[1]]
         if ref[0] == "sig":
             return type("Variant", (base,), {"signature": (ref[2], ref[3])})
+        if ref[0] == "sigsame":      # a laboratory's variant that keeps the name of the kit type it derives from
+            return type(base.__name__, (base,), {"signature": (ref[2], ref[3])})
         return type("Dyn" + base.__name__, (base,), {})
     return classes[ref]
 
@@ -138,10 +151,13 @@ def check_case(ctx, case):
         ctx.fail("history raised {}: {}".format(got[1], got[2]), case)
         return
     for i, ((ref, word, topo), g) in enumerate(zip(hist, got)):
+        if g and g[0] in ("unstable", "invalid-but-overhang-returned"):
+            ctx.fail("a wrapper asked twice about the same record changes its answer ({})".format(g), case)
+            break
         exp = fresh_answer(S, ref, word, topo)
         if g != exp:
             def nm(x):
-                if isinstance(x, list) and x[0] == "sig":
+                if isinstance(x, list) and x[0] in ("sig", "sigsame"):
                     return "part type 'Variant' {}/{} derived from {}".format(x[2], x[3], classes[x[1]].__name__)
                 return ("new subclass of " + classes[x[1]].__name__) if isinstance(x, list) else classes[x].__name__
             ctx.fail("after validating with {}, {} answers {} on a {} record for which a fresh interpreter answers {}".format(
@@ -154,7 +170,7 @@ def check_case(ctx, case):
     # model: one class table per history (dynamic subclasses share their base's structure)
     table, idx = [], []
     for ref in refs:
-        if isinstance(ref, list) and ref[0] == "sig":
+        if isinstance(ref, list) and ref[0] in ("sig", "sigsame"):
             cls = resolve(classes, ref)
         else:
             cls = classes[ref[1]] if isinstance(ref, list) else classes[ref]
@@ -215,6 +231,18 @@ def run(ctx):
         if rng.random() < 0.5:
             hist.append([hist[0][0], hist[-1][1]])      # the first type asked about the last record
         ctx.guard(check_case, {"history": hist})
+        # the kit type first, then a variant that keeps its name
+        ref = ["sigsame", a, gen.rnd(rng, k), gen.rnd(rng, k)]
+        inst, _ = gen.instantiate(rng, resolve(classes, ref).structure(), runlen=3)
+        ctx.guard(check_case, {"history": [[a, words[a]], [ref, gen.rot(inst + gen.rnd(rng, 5), rng.randrange(6))],
+                                           [ref, words[a]]]})
+    # records that match the structure but carry a third site of the cutter: refused, and refused again
+    import typing_h as T
+    for _ in range(ctx.budget(60, 1000)):
+        a = rng.randrange(n)
+        w = T.inner_site_instance(rng, classes[a])
+        w = gen.rot(w, rng.randrange(len(w)))
+        ctx.guard(check_case, {"history": [[a, w], [rng.choice([a, rng.randrange(n)]), w]]})
     # one plasmid object typed with a class and then with a related class while the first wrapper is alive
     for _ in range(ctx.budget(120, 2500)):
         a, b = rng.choice(related) if related else (0, 0)
